@@ -72,6 +72,36 @@ fn c08b_gate_copy() {
     std::mem::forget((p, r));
 }
 
+/// same gate for a patch that does not change the size and whose declared digests are arbitrary (also equal to each
+/// other: a "no-op" patch must still verify the base it is given)
+#[kani::proof]
+#[kani::unwind(20)]
+#[kani::stub(std::fmt::format, vio::fmt_stub)]
+#[kani::stub(PatchFile::verify_base, verify_base_stub)]
+#[kani::stub(PatchFile::verify_patched, verify_patched_stub)]
+fn c08b_gate_copy_same_size() {
+    unsafe { BASE_OK = kani::any(); PATCHED_OK = kani::any(); SEEN_LEN = usize::MAX; }
+    let new: [u8; 3] = kani::any();
+    let base: [u8; 3] = kani::any();
+    let mut p = copy_patch(3, 3, new.to_vec());
+    p.header.md5_before = kani::any();
+    p.header.md5_after = if kani::any() { p.header.md5_before } else { kani::any() };
+    let r = apply_patch(&p, &base);
+    let (b_ok, p_ok) = unsafe { (BASE_OK, PATCHED_OK) };
+    kani::cover!(r.is_ok());
+    kani::cover!(r.is_err() && p.header.md5_before == p.header.md5_after);
+    if !b_ok || !p_ok {
+        assert!(r.is_err(), "patch result returned although a digest check failed");
+    } else {
+        assert!(r.is_ok(), "valid COPY patch rejected");
+    }
+    if let Ok(out) = &r {
+        assert!(out.len() == 3 && out[0] == new[0] && out[1] == new[1] && out[2] == new[2], "COPY patch result is not the patch payload");
+        assert!(unsafe { SEEN_LEN == 3 && SEEN_FIRST == out[0] && SEEN_LAST == out[2] }, "returned bytes were not the ones submitted to the digest check");
+    }
+    std::mem::forget((p, r));
+}
+
 // ------------------------------------------------------------------ C08.a COPY size checks
 #[kani::proof]
 #[kani::unwind(8)]
